@@ -281,7 +281,7 @@ def _wrapper_strategy(tier, w):
     @st.composite
     def case(draw):
         dim = 2 if w.endswith("2d") else 3
-        shape = draw(gen.grid_shape(dim, 5 if not w.startswith("filter") else 13, hi2 if dim == 2 else max(hi3, 15)))
+        shape = draw(gen.grid_shape(dim, 5 if not w.startswith("filter") else 13, hi2 if dim == 2 else max(hi3, 15), long_axis=70 if dim == 2 else 40))
         coef = gen.floats(-2.0, 2.0, 32)
         return {
             "wrapper": w,
